@@ -1,7 +1,7 @@
 """Prepare a round of seeded changes: one scratch git worktree of /repo per property under /tmp/wt/<pid><suffix> holding
 PROPERTY.txt (the property as given), KNOWN.txt (what every recorded change for that property does and needs - so the
 author stays away from it) and TASK.txt (the brief).  Nothing from /verif's machinery is copied.
-usage: seedprep.py <suffix> [style]      style: realistic (default) | history | api"""
+usage: seedprep.py <suffix> [style]      style: realistic (default) | history | api | data | interaction"""
 import json
 import os
 import subprocess
@@ -21,6 +21,15 @@ HISTORY of calls - the same final call on a fresh object still behaves correctly
 of CALLING the public API - an argument given by keyword instead of position, an optional argument, a default, an argument of
 another accepted type (str vs FmtStr, list vs FSArray, tuple vs list, subclass), an extreme but legal value (0, negative,
 past the end, empty, very large), an alternative entry point to the same functionality.""",
+    "data": """Make ONE small, plausible change to the library that BREAKS the property in PROPERTY.txt only for particular DATA - found by
+reading which constants, tables, regular expressions, character classes and size limits the code relies on: specific characters or
+character classes (Unicode categories, control characters, zero-width / wide / combining characters, digits or letters that look
+like parts of escape sequences), specific numeric values or sizes (0, 1, exactly an internal buffer or read size, a power of two,
+very large), specific attribute or option combinations.""",
+    "interaction": """Make ONE small, plausible change to the library that BREAKS the property in PROPERTY.txt only when TWO (or three) features
+that each still work alone are used TOGETHER in one call or one short sequence of calls (for example: wide characters + a formatting
+change + wrapping; paste detection + a scheduled event; hide_cursor=False + scrolling; a str operand + an empty run + a boundary
+position). Each feature on its own must behave exactly as before.""",
 }
 
 TASK = """You are working in a scratch git worktree of the Python library `curtsies` in this directory ({wt}). Work ONLY inside
